@@ -9,6 +9,7 @@ EXTENDS ExportContext, ExportContextParams
 \* cancellation is only scripted where the driver can perform it meaningfully (see ExportContextGen)
 AttrOK(a) == /\ a.cancel = "post" => cfg.queue \in {"memory", "persistent"}
              /\ a.cancel = "pre"  => cfg.queue \in {"memory", "persistent", "none"}
+             /\ a.sc = "chain"    => ~cfg.enq /\ cfg.queue # "persistent"
 
 NextReq == ParamReqs[Cardinality(DOMAIN sent) + 1]
 Send(a) == /\ Cardinality(DOMAIN sent) < Len(ParamReqs) /\ AttrOK(a)
